@@ -121,7 +121,7 @@ _add(PropertySpec(
     "C02", files=["compute_super", "ordered"],
     targets=["superrec2.compute.super_reconciliation:_make_prec_graph", f"{SUB}:subseq_complete", f"{SUB}:mask_from_subseq", f"{SUB}:subseq_from_mask", f"{SUB}:subseq_segment_dist",
              f"{MRC}:SuperReconciliationOutput._ordered_labeling_cost", f"{MRC}:SuperReconciliationOutput.cost"],
-    level="exploration", standins=["ordered-solvers:optimum-vs-brute-force", "spfs-entry:recurrence-contract-at-runtime", "gain-sets-required-sets-precedence-graph:contracts-at-runtime"],
+    level="exploration", standins=["ordered-solvers:optimum-vs-brute-force", "ordered-solvers:F-COHERENCE-witness", "spfs-entry:recurrence-contract-at-runtime", "gain-sets-required-sets-precedence-graph:contracts-at-runtime"],
     technique="bounded stand-in (both ordered solvers against an independent optimum over every species mapping, root order and labelling) plus "
               "contract-based deductive verification of the callees the solver's correctness rests on (mask / segment-distance functions, ordered labelling cost); "
               "the SPFS table contracts are not discharged",
@@ -132,7 +132,7 @@ _add(PropertySpec(
     "C03", files=["compute_super", "unordered"],
     targets=[f"superrec2.compute.unordered_super_reconciliation:_compute_lca_sets", "superrec2.compute.unordered_super_reconciliation:_compute_gain_sets", f"{MRC}:SuperReconciliationOutput._unordered_labeling_cost", f"{MRC}:SuperReconciliationOutput.cost",
              f"{MRC}:ReconciliationOutput.node_event", f"{MRC}:ReconciliationOutput._cost_rec"],
-    level="exploration", standins=["unordered-solvers:optimum-vs-brute-force", "uspfs-entry:recurrence-contract-at-runtime", "gain-sets-required-sets-precedence-graph:contracts-at-runtime"],
+    level="exploration", standins=["unordered-solvers:optimum-vs-brute-force", "unordered-solvers:F-COHERENCE-witness", "uspfs-entry:recurrence-contract-at-runtime", "gain-sets-required-sets-precedence-graph:contracts-at-runtime"],
     technique="bounded stand-in (both unordered solvers against an independent optimum over every species mapping and EVERY admissible labelling, not only the canonical ones) plus "
               "contract-based deductive verification of the evaluator (unordered labelling cost, event model); the USPFS table contracts are not discharged",
     not_decided=["recurrence contract of _compute_uspfs_entry, _compute_uspfs_table, _decode_uspfs_table, _uspfs and the wrappers: NOT discharged, bounded stand-in only",
